@@ -2,6 +2,7 @@
 \* Texts {q1,q2,bad}, WrongHashes {x:rand}, map + LRU capacity 1..2, one
 \* malformed kind with and one without hash, one bad version; histories of any
 \* length sending at most 3 distinct <<hash,text>> pairs.
+\* Measured: 57046 distinct states, 3650947 generated, 15-20 s with 4 workers.
 SPECIFICATION Spec
 CONSTANTS
   Texts <- QTexts
@@ -16,5 +17,5 @@ CONSTANTS
   History = TRUE
 CONSTRAINT SentQ
 INVARIANTS TypeOK Bound WasSent LruOK
-PROPERTY StepOK
+PROPERTIES ImplConforms ImplExtraOK
 CHECK_DEADLOCK FALSE
